@@ -1204,6 +1204,9 @@ fn check_file(case: &StyleCase, drv: &mut Driver, out: &mut Out, shrink: bool) -
     let input = case.wire();
     let model = drv.ask(&case.model_request());
     let (bytes, values) = case.build();
+    if let Ok(path) = std::env::var("VERIF_DUMP") {
+        let _ = std::fs::write(path, &bytes);
+    }
     let range = match case.read(bytes) {
         Ok(r) => r,
         Err(e) => {
@@ -1268,12 +1271,61 @@ fn check_file(case: &StyleCase, drv: &mut Driver, out: &mut Out, shrink: bool) -
     ok
 }
 
+/// A `formatCode` attribute written RAW (not XML-escaped) into xl/styles.xml, e.g. `0 & 0` with a bare ampersand:
+/// not well-formed XML, but such files exist and the pinned reader opened them. Expectation: the workbook opens
+/// and XF 1 (format 164) is typed by the scan of the raw text; a date-detection detail must not decide whether a
+/// workbook can be read.
+fn check_raw_formatcode(raw: &str, drv: &mut Driver, out: &mut Out) {
+    use calamine::{Reader, Xlsx};
+    use verif_harness::xlsxw;
+    let input = format!("rawfmt {}", hex(raw.as_bytes()));
+    let shown = format!("{input}   [text: {raw}]");
+    let mut book = xlsxw::XlsxBook::new();
+    book.num_fmts = vec![(164, raw.to_string())];
+    book.cell_xfs = vec![0, 164];
+    let mut sh = xlsxw::XlsxSheet::new("S");
+    sh.set(0, 0, xlsxw::XCell::num("44197.5").with_style(1));
+    book.sheets.push(sh);
+    let built = book.build(&xlsxw::Layout::plain());
+    let escaped = xlsxw::esc_attr(raw);
+    let mut parts = built.parts.clone();
+    let mut patched = false;
+    for (name, body) in parts.iter_mut() {
+        if name.to_ascii_lowercase().ends_with("styles.xml") {
+            let t = String::from_utf8(body.clone()).unwrap();
+            patched = t.contains(&escaped);
+            *body = t.replace(&escaped, raw).into_bytes();
+        }
+    }
+    assert!(patched, "styles part does not contain the escaped format code");
+    let bytes = xlsxw::zip_parts(&parts, xlsxw::Compression::Deflated, &mut Rng::new(1));
+    let model = drv.ask(&format!("detect {}", hex(raw.as_bytes())));
+    let want = expect_cell(&model, 44197.5, false);
+    let got = guarded(|| -> Result<String, String> {
+        let mut wb = Xlsx::new(std::io::Cursor::new(bytes)).map_err(|e| format!("open: {e:?}"))?;
+        let r = wb.worksheet_range("S").map_err(|e| format!("range: {e:?}"))?;
+        Ok(canon_cell(r.get_value((0, 0))))
+    });
+    let got = match got {
+        Ok(Ok(c)) => c,
+        Ok(Err(e)) => e,
+        Err(p) => format!("panic: {p}"),
+    };
+    if got != want {
+        let sig = if got.starts_with("N:") || got.starts_with("D:") { "file:xlsx:raw-formatcode-class" } else { "file:xlsx:raw-formatcode-unreadable" };
+        out.fail("impl_vs_spec", sig, &shown, &got, &model, &want);
+    }
+    out.cases.push((input, true));
+    out.count("corpus");
+}
+
 fn gen_style_case(rng: &mut Rng, kind: &'static str) -> StyleCase {
     let mut defs: Vec<(u16, Fmt)> = vec![];
     for _ in 0..rng.below(6) {
         let id = match rng.below(10) {
             0 => *rng.pick(&[14u16, 20, 22, 46, 47]), // a built-in date id redefined
-            1 => *rng.pick(&[0u16, 1, 9, 37, 49, 5, 44]),
+            // (xlsx: id 0 is never redefined — an <xf> may legally omit numFmtId, default 0, and the shared writer does so)
+            1 => *rng.pick(&[if kind == "xlsx" { 2u16 } else { 0u16 }, 1, 9, 37, 49, 5, 44]),
             2 if !defs.is_empty() => defs[rng.below(defs.len() as u64) as usize].0, // defined twice
             _ => rng.range(164, 180) as u16,
         };
@@ -1381,7 +1433,7 @@ fn main() {
          ids redefined, ids defined twice), 2-10 cell XFs over custom, built-in and undefined ids, both date systems, every \
          numeric encoding of the shared writers; per cell: DateTime(value, flavour, date system) iff the XF's format is a \
          date format (custom definition if the id is defined, else ECMA table). No expectation (impl vs model only) for: \
-         ill-formed or empty custom strings; in xlsb a built-in date id redefined with another class (xlsb consults the \
+         ill-formed or empty custom strings; id 0 (General) is never redefined in xlsx cases (an <xf> may omit numFmtId); in xlsb a built-in date id redefined with another class (xlsb consults the \
          built-in table first).",
     );
     let mut drv = Driver::spawn(&args.driver);
@@ -1421,6 +1473,7 @@ fn main() {
             }
             ["fmtf64", v, f, d] => check_wrap_f64(v.parse().unwrap(), parse_fmt_arg(f), *d == "1", &mut drv, &mut out),
             ["fmti64", v, f, d] => check_wrap_i64(v.parse().unwrap(), parse_fmt_arg(f), *d == "1", &mut drv, &mut out),
+            ["rawfmt", h] => check_raw_formatcode(&String::from_utf8(unhex(h)).expect("utf8"), &mut drv, &mut out),
             w if w.first() == Some(&"file") => {
                 let r2 = r.split("   [xf").next().unwrap().trim();
                 let w2: Vec<&str> = r2.split(' ').collect();
@@ -1513,6 +1566,10 @@ fn main() {
         check_file(&c, &mut drv, &mut out, false);
         out.cases.push((c.wire(), true));
         out.count("corpus");
+    }
+    // review finding on fix 303c869: a malformed entity in formatCode must not stop the workbook from opening
+    for raw in ["0 & 0", "0 &foo; 0", "yyyy & mm", "0.0 &quot d", "&#x110000;0"] {
+        check_raw_formatcode(raw, &mut drv, &mut out);
     }
     out.merge_into(&mut rep);
 
